@@ -244,12 +244,12 @@ int main(int argc, char** argv) {
     }
     for (long n : order) {
         uint64_t s = deriveSeed(base, uint64_t(n));
-        // every batch contains the two scale scenarios (seed residues 1 and 2 modulo 4096, see gen.cpp); no other index is forced onto them
-        if (n == 0 || n == 1) s = (s & ~uint64_t(4095)) | uint64_t(n + 1);
+        // every batch contains the scale scenarios (seed residues 1, 2 and 3 modulo 4096, see gen.cpp); no other index is forced onto them
+        if (n >= 0 && n < 6) s = (s & ~uint64_t(8191)) | (uint64_t(n / 3) << 12) | uint64_t(n % 3 + 1);   // both variants (bit 12) of the three kinds
         std::printf("START %llu %ld\n", (unsigned long long)s, n);
         std::fflush(stdout);
         Scenario sc = generate(prop, s, tier, plain);
-        const bool scaleScenario = sc.src.size() > 3000;     // the two large scenarios of a batch: two schedules are enough
+        const bool scaleScenario = sc.src.size() > 3000 || (sc.blockSize == 1 && sc.src.size() > 1000);     // the two large scenarios of a batch: two schedules are enough
         for (int k = 0; k < (scaleScenario ? std::min(K, 2) : K) && !g_leakSeen; ++k) {
             applySchedule(sc, k, plain);
             runOne(sc, false);
